@@ -70,13 +70,14 @@ pub struct Ctx {
     pub assumptions: Mutex<Vec<String>>,
     pub level: Mutex<&'static str>,
     replay_outcome: Mutex<Option<Result<String, String>>>,
+    pub inconclusive: Mutex<Option<String>>,
 }
 
 impl Ctx {
     pub fn new(id: &str, tier: Tier, seed: u64, root: PathBuf, replay: Option<(String, Value)>) -> Ctx {
         let jobs = std::env::var("VERIF_JOBS").ok().and_then(|s| s.parse().ok()).unwrap_or_else(|| std::thread::available_parallelism().map(|n| n.get()).unwrap_or(8)).max(1);
         let known = load_known(&root, id);
-        Ctx { id: id.into(), tier, seed, jobs, root, replay, start: Instant::now(), stats: Default::default(), distinct: Default::default(), violations: Default::default(), known, known_fired: Default::default(), notes: Default::default(), extra: Default::default(), assumptions: Default::default(), level: Mutex::new("exploration"), replay_outcome: Mutex::new(None) }
+        Ctx { id: id.into(), tier, seed, jobs, root, replay, start: Instant::now(), stats: Default::default(), distinct: Default::default(), violations: Default::default(), known, known_fired: Default::default(), notes: Default::default(), extra: Default::default(), assumptions: Default::default(), level: Mutex::new("exploration"), replay_outcome: Mutex::new(None), inconclusive: Mutex::new(None) }
     }
     pub fn quick(&self) -> bool { self.tier == Tier::Quick }
     /// Pick a count by tier.
@@ -84,6 +85,7 @@ impl Ctx {
     pub fn note(&self, s: impl Into<String>) { self.notes.lock().unwrap().push(s.into()); }
     pub fn assume(&self, s: impl Into<String>) { self.assumptions.lock().unwrap().push(s.into()); }
     pub fn put(&self, k: &str, v: Value) { self.extra.lock().unwrap().insert(k.into(), v); }
+    pub fn set_inconclusive(&self, m: impl Into<String>) { *self.inconclusive.lock().unwrap() = Some(m.into()); }
     pub fn violated(&self) -> bool { !self.violations.lock().unwrap().is_empty() }
     pub fn derive_seed(&self, sub: &str, worker: usize) -> [u8; 32] {
         kspec::sha256(format!("kverif|{}|{}|{}|{}", self.seed, self.id, sub, worker).as_bytes())
@@ -299,6 +301,7 @@ impl Ctx {
         let _ = std::fs::write(dir.join(format!("{}.json", self.id)), serde_json::to_string_pretty(&ev).unwrap() + "\n");
         for k in self.known.iter().filter(|k| k.status == "open") { if kf.contains_key(&k.signature) { println!("KNOWN-FINDING: property={} {}", self.id, k.what); } }
         println!("[{}] tier={} seed={} evaluations={} distinct_nontrivial={} violations={} wall={:.1}s", self.id, if self.quick() { "quick" } else { "thorough" }, self.seed, evaluations, distinct, viol.len(), wall);
+        if let Some(m) = self.inconclusive.lock().unwrap().as_ref() { if viol.is_empty() { println!("[{}] INCONCLUSIVE: {}", self.id, m); return 2; } }
         if viol.is_empty() { 0 } else { for (p, _) in viol.iter() { println!("VIOLATION property={} replay={}", self.id, p); } 1 }
     }
 }
